@@ -190,3 +190,164 @@ Theorem C03_along_every_history :
 Proof. exact apply_removes_abandoned_along_histories. Qed.
 Print Assumptions C03_along_every_history.
 
+
+(* ---- the clause "containers left without content by this disappear too" (Proofs/HollowFree*.v).
+   REFUTED as stated: RemoveItems writes the nil of an emptied list or map back under its key,
+   so an emptied container stays behind as an explicit null whenever something at or beneath it
+   is still in the closure of what the others own (known finding F26, replayed on the
+   implementation: a applies items:[{name:y}], d updates items[y].vv, a applies {aa:2} ->
+   {aa:2, items:null}; also with applies only).  What holds instead, along every history of
+   plain applies and plain updates: the object never holds an EMPTY map or list
+   (no_empty: the invariant), every null of a result sits at a container the apply emptied,
+   and the result is free of nulls exactly when the removal set of prune is "covered"
+   (every container it leaves in place keeps a member): the weakest repair, with an example
+   where a map does disappear with its last entry. ---- *)
+From Coq Require Import List ZArith String Bool Arith Lia.
+From SMD Require Import Model.Value Model.Order Model.PathElem Model.PathSet Model.Schema Model.Walk
+  Model.Validate Model.FieldSet Model.Remove Model.Merge Model.Compare Model.Matcher Model.Reconcile
+  Model.Updater
+  Spec.PathsAsSets Spec.RefValid Spec.Resolve Spec.Agree Spec.RefDiff Spec.Examples
+  Proofs.OrderLaws Proofs.PathSetLaws Proofs.SchemaOk Proofs.FieldSetBase Proofs.FieldSetPaths
+  Proofs.FieldSetWf Proofs.FieldSetLaws Proofs.RemoveAbsent Proofs.RemoveWf Proofs.ResolveLaws
+  Proofs.UpdaterLaws Proofs.UpdaterLaws2 Proofs.MergeLaws Proofs.MergeAgree
+  Proofs.RemoveFrame Proofs.EnLaws Proofs.NodeSet Proofs.KeyFields Proofs.VeqbResolve
+  Proofs.SetCheckers Proofs.ApplyEffect Proofs.RefDiffBoth Proofs.RefDiffLaws Proofs.RefDiffPresent
+  Proofs.ApplyInv Proofs.History Proofs.Reapply.
+From SMD Require Import Proofs.TreeFacts Proofs.PruneShape Proofs.ApplyPruneBase Proofs.ApplyPrune
+  Proofs.HollowFreeBase Proofs.HollowFreeMerge Proofs.HollowFreePrune.
+From SMD Require Proofs.Visible Proofs.TransparentMerge Proofs.TransparentRemove Proofs.ReconcileBase.
+From SMD Require Import Proofs.HollowFree.
+Theorem C03_no_empty_container_along_every_history :
+  forall (c : config) (R : typeref -> Prop) (ver : string) (ops : list hop),
+         setting_ok c R ver ->
+         Forall (op_ok c ver) ops ->
+         Forall hop_plain ops -> no_empty (fst (run c ver ops)) = true.
+Proof. exact no_empty_along_histories. Qed.
+Print Assumptions C03_no_empty_container_along_every_history.
+
+Theorem C03_apply_creates_no_empty_container :
+  forall (c : config) (R : typeref -> Prop) (ver : string) (live : value) 
+           (mf : managed) (mgr : string) (cfg : value) (force : bool) 
+           (o : option tv) (mf' : managed),
+         setting_ok c R ver ->
+         state_ok c ver live mf ->
+         op_ok c ver (HApply mgr cfg force) ->
+         no_empty live = true ->
+         apply_op c (ver, live) (ver, cfg) ver mf mgr force = UOk (o, mf') ->
+         no_empty match o with
+                  | Some t => snd t
+                  | None => live
+                  end = true.
+Proof. exact apply_keeps_no_empty. Qed.
+Print Assumptions C03_apply_creates_no_empty_container.
+
+Theorem C03_emptied_container_is_left_as_null :
+  let live := fst (run ex_config "v1" hf_ops2) in
+         let res := fst (run ex_config "v1" hf_ops3) in
+         granular ex_schema ex_rt live /\
+         (exists (tq : typeref) (x : value),
+            resolve_path ex_schema ex_rt live (PEField "items" :: nil) = Some (RNode tq x) /\
+            granular ex_schema tq x) /\
+         (exists tq : typeref,
+            resolve_path ex_schema ex_rt res (PEField "items" :: nil) = Some (RNode tq VNull)) /\
+         (forall e : pe, present ex_schema ex_rt res (PEField "items" :: e :: nil) = false) /\
+         present ex_schema ex_rt res (PEField "items" :: nil) = true.
+Proof. exact emptied_container_is_left_as_null. Qed.
+Print Assumptions C03_emptied_container_is_left_as_null.
+
+Theorem C03_emptied_container_left_as_null_applies_only :
+  setting_ok ao_config ao_R "v1" /\
+         Forall (op_ok ao_config "v1") ao_ops /\
+         Forall hop_plain ao_ops /\
+         Forall (fun o : hop => match o with
+                                | HApply _ _ _ => True
+                                | HUpdate _ _ => False
+                                end) ao_ops /\
+         fst (run ao_config "v1" ao_ops) = ao_res /\
+         ~ hollow_free (fst (run ao_config "v1" ao_ops)).
+Proof. exact hollow_free_applies_only_refuted. Qed.
+Print Assumptions C03_emptied_container_left_as_null_applies_only.
+
+Theorem C03_nulls_are_emptied_containers :
+  forall (c : config) (R : typeref -> Prop) (ver : string) (live : value) 
+           (mf : managed) (mgr : string) (cfg : value) (force : bool) 
+           (o : option tv) (mf' : managed) (q : path) (tq : typeref),
+         setting_ok c R ver ->
+         state_ok c ver live mf ->
+         op_ok c ver (HApply mgr cfg force) ->
+         hollow_free live ->
+         apply_op c (ver, live) (ver, cfg) ver mf mgr force = UOk (o, mf') ->
+         let res := match o with
+                    | Some t => snd t
+                    | None => live
+                    end in
+         wf_path q = true ->
+         q <> nil ->
+         resolve_path (schema_of c ver) (tr_of c ver) res q = Some (RNode tq VNull) ->
+         exists M x : value,
+           merge (schema_of c ver) (tr_of c ver) live cfg = Some (Some M) /\
+           resolve_path (schema_of c ver) (tr_of c ver) M q = Some (RNode tq x) /\
+           granular (schema_of c ver) tq x.
+Proof. exact apply_nulls_are_emptied_containers. Qed.
+Print Assumptions C03_nulls_are_emptied_containers.
+
+Theorem C03_when_no_null_is_left :
+  forall (c : config) (R : typeref -> Prop) (ver : string) (live : value) 
+           (mf : managed) (mgr : string) (cfg : value) (force : bool) 
+           (o : option tv) (mf' : managed),
+         setting_ok c R ver ->
+         state_ok c ver live mf ->
+         op_ok c ver (HApply mgr cfg force) ->
+         hollow_free live ->
+         apply_op c (ver, live) (ver, cfg) ver mf mgr force = UOk (o, mf') ->
+         let res := match o with
+                    | Some t => snd t
+                    | None => live
+                    end in
+         exists M : value,
+           merge (schema_of c ver) (tr_of c ver) live cfg = Some (Some M) /\
+           plain M = true /\
+           (o = None \/ mf_get mgr mf = None -> hollow_free res) /\
+           (o <> None ->
+            mf_get mgr mf <> None ->
+            exists T : pset,
+              nice (schema_of c ver) (tr_of c ver) M T /\
+              sub_present (schema_of c ver) (tr_of c ver) M T /\
+              res = remove (schema_of c ver) (tr_of c ver) M T /\
+              (hollow_free res <-> covered (schema_of c ver) (tr_of c ver) M T)).
+Proof. exact apply_hollow_free_exact. Qed.
+Print Assumptions C03_when_no_null_is_left.
+
+Theorem C03_removal_when_no_null_is_left :
+  forall (c : config) (R : typeref -> Prop) (ver : string) (v : value) (T : pset),
+         setting_ok c R ver ->
+         wf_value v = true ->
+         conforms (schema_of c ver) (tr_of c ver) true v = true ->
+         nice (schema_of c ver) (tr_of c ver) v T ->
+         sub_present (schema_of c ver) (tr_of c ver) v T ->
+         plain v = true ->
+         hollow_free (remove (schema_of c ver) (tr_of c ver) v T) <->
+         covered (schema_of c ver) (tr_of c ver) v T.
+Proof. exact remove_hollow_free_exact. Qed.
+Print Assumptions C03_removal_when_no_null_is_left.
+
+Theorem C03_emptied_containers_example :
+  exists mf' : managed,
+           apply_op ex_config ("v1", hx_obj) ("v1", hx_cfg2) "v1" hx_mf "c" true =
+           UOk (Some ("v1", hx_res2), mf') /\
+           present ex_schema ex_rt hx_obj (PEField "mm" :: nil) = true /\
+           present ex_schema ex_rt hx_res2 (PEField "mm" :: nil) = false /\
+           hollow_free hx_res2 /\
+           no_empty hx_res2 = true /\
+           (exists (M : value) (T : pset),
+              merge ex_schema ex_rt hx_obj hx_cfg2 = Some (Some M) /\
+              plain M = true /\
+              wf_value M = true /\
+              conforms ex_schema ex_rt true M = true /\
+              ps_ok T = true /\
+              nice ex_schema ex_rt M T /\
+              sub_present ex_schema ex_rt M T /\
+              covered ex_schema ex_rt M T /\ hx_res2 = remove ex_schema ex_rt M T).
+Proof. exact apply_example. Qed.
+Print Assumptions C03_emptied_containers_example.
+
